@@ -64,11 +64,12 @@ PROPS = {
         "assumptions": ["node ranges lie on char boundaries and inside the document (T-node)"],
     },
     "C07": {
-        "units": ["indent"],
+        "units": ["indent", "template"],
         "kani": [K("core", "split_first_meta_var_len5", "fix-template variable scanner vs the spelling table ($A/$$A single, $$$A multi, longest [A-Z_0-9]* name, digit-first/lower-case/lone sigils literal)", bound="strings over {$,A,a,_,1,space}, length <= 5"),
                  K("core", "split_first_meta_var_transform_len4", "same with a transform key", bound="length <= 4"),
                  K("core", "get_indent_at_offset_len8", "indentation at an offset = run of SPACES after the last line break (tabs are text)", bound="bytes over {space,newline,a,tab}, length <= 8 (< MAX_LOOK_AHEAD)")],
         "decided": ["template variable scanner (split_first_meta_var) for the stated bounds only",
+                    "fix templates (unit template, unbounded, D::Source = String): create_template cuts the template LOSSLESSLY into literal fragments and variable slots, each slot the variable spelled there (split_first_meta_var) with the indentation of its template line, and never slices inside a character; replace_fixer == fragment 0, then per slot the variable's text (nothing if unbound) and the next fragment, copied unchanged; maybe_get_var == the source text first-to-last captured node (or the transformed string), re-indented from the indentation of the line it starts on to the slot's",
                     "indentation (unit indent, unbounded, C = String): get_indent_at_offset == leading spaces of the line the prefix ends on (512-unit window; tabs are text); extract_with_deindent / deindent_slice attach exactly that indentation to a multi-line capture and none to a single-line one; indent_lines == reindent(text, original, target): first line untouched, every further line gains (target - original) spaces or loses (original - target) leading spaces when it has them; indent_lines_impl / remove_indent line by line"],
         "not_decided": ["create_template / indent_lines / remove_indent / extract_with_deindent: the harnesses written for them (kh/core/template.rs, kh/core/indent.rs) exhaust CBMC's memory even at 3-4 bytes (Vec<String>, Cow, split/strip_prefix adapters) and Verus rejects the iterator adapters: NOT decided",
                         "replace_fixer / maybe_get_var (need a Node)", "string_case"],
@@ -99,7 +100,7 @@ PROPS = {
         "assumptions": ["tree_sitter::Point is a plain (row, column) carrier"],
     },
     "C11": {
-        "units": [("strictness", r"match_meta_var|match_leaf_meta_var"), "nth_child", "rewrite", "deserialize_env", "transformation"],
+        "units": [("strictness", r"match_meta_var|match_leaf_meta_var"), "nth_child", "rewrite", "deserialize_env", "transformation", ("template", r"create_template")],
         "kani": [K("config", "numeric_position_exact", "numeric nthChild: no panic, no truncation", complete=True),
                  K("config", "parse_an_b_len4", "parse_an_b: no panic/overflow", bound="strings over {9,1,n,+,-,space}, length <= 4"),
                  K("config", "used_vars_no_panic_len3", "Transformation::used_vars never panics (empty / multi-byte / sigil-less sources)", bound="every UTF-8 string of <= 3 bytes"),
